@@ -14,7 +14,7 @@ type Viol struct {
 	Sig  string `json:"sig"`
 }
 
-var verdictRe = regexp.MustCompile(`^<<"VERDICT", "([^"]*)", (.*)>>$`)
+var verdictRe = regexp.MustCompile(`^"VERDICT\|([^|]*)\|(.*)"$`)
 
 func init() { _ = verdictRe }
 var violRe = regexp.MustCompile(`\[prop \|-> \\?"([^"\\]+)\\?", sig \|-> \\?"([^"\\]+)\\?"\]`)
